@@ -15,7 +15,7 @@ RULE = (
     "real pytest sessions over generated files with 1-4 test functions, each with 1-4 sites whose status is "
     "chosen by the generator: ok (the comparison holds), wrong (some comparison fails against the value in the "
     "source) or missing (empty call / missing sub-snapshot key); all five operations, loops where only a later "
-    "iteration is wrong, module-level sites shared by several tests, asserting bodies; flags: every subset of "
+    "iteration is wrong (also for ==, where the value in the source matches the first evaluations), module-level sites shared by several tests, asserting bodies; flags: every subset of "
     "the categories alone or with report / review (random y/n answers) / short-report, no flags at all, and "
     "disable. Which sites a test *executed* is observed, not modelled: the body appends a marker to a side "
     "file immediately before each comparison. Oracle (junit + exit status): a test that executed a wrong or "
@@ -73,6 +73,9 @@ def site_code(s):
     op, xs, status = s["op"], s["xs"], s["status"]
     if op == "eq":
         x = xs[0]
+        if status == "wrong" and s["late"] and len(xs) >= 2:
+            # the value in the source matches the first evaluations; only the last observed value differs
+            return repr(x), [repr(x)] * (len(xs) - 1) + [repr(x + 1)]
         arg = {"ok": repr(x), "wrong": repr(x + 1), "missing": ""}[status]
         return arg, [repr(x)] * len(xs)
     if op in ("le", "ge") and status == "wrongtype":
@@ -97,6 +100,9 @@ def site_code(s):
     good = {"a": xs[0], "b": xs[-1]}
     if status == "ok":
         arg = repr(good)
+    elif status == "wrong" and s["late"] and len(xs) >= 2:
+        # the sub-snapshot of 'b' is compared twice, only the second observation differs
+        return repr(good), [("a", repr(xs[0])), ("b", repr(xs[-1])), ("b", repr(xs[-1] + 1))]
     elif status == "wrong":
         arg = repr({"a": xs[0], "b": xs[-1] + 1})
     else:
